@@ -1,4 +1,5 @@
-CONSTANT MaxLen = 3
+CONSTANT MaxLen = 4
+CONSTANT Vars = {"mv","nd"}
 INIT Init
 NEXT Next
 INVARIANT Emit
